@@ -126,8 +126,17 @@ impl Stage for ManyContainers {
         for k in &order {
             cmds.push(Cmd::Act(Action::Expr(leaf(*k))));
         }
+        // directed script (see below): leaves by age r < q < p; I = [q] exists first, then X = [[p]], then Y = [[q]]
+        let directed = s.bool();
+        let (dr, dq, dp) = (order[0], order[1], order[2]);
+        if directed {
+            let outer = |k: usize| Term::App(2, vec![Term::Prim("vec-of".into(), vec![cont(vec![leaf(k)])])]);
+            cmds.push(Cmd::Act(Action::Expr(Term::App(1, vec![cont(vec![leaf(dq)])]))));
+            cmds.push(Cmd::Act(Action::Expr(outer(dp))));
+            cmds.push(Cmd::Act(Action::Expr(outer(dq))));
+        }
         // a few containers over the leaves, again in a generated order (registration order = container id order)
-        let n_pre = 2 + s.below(4);
+        let n_pre = if directed { 0 } else { 2 + s.below(4) };
         for _ in 0..n_pre {
             let k = 1 + s.below(2);
             let es = (0..k).map(|_| leaf(s.below(4))).collect();
@@ -135,7 +144,7 @@ impl Stage for ManyContainers {
         }
         // outer containers over inner ones (two or three rows, so that a union can make two outer containers equal
         // and a later union rewrites a shared inner container in place)
-        let n_nested = 1 + s.below(3);
+        let n_nested = if directed { 0 } else { 1 + s.below(3) };
         for _ in 0..n_nested {
             let inner = cont(vec![leaf(s.below(4))]);
             cmds.push(Cmd::Act(Action::Expr(Term::App(2, vec![Term::Prim("vec-of".into(), vec![inner])]))));
@@ -181,20 +190,12 @@ impl Stage for ManyContainers {
                 opts: RuleOpts { ruleset: Some(1), ..Default::default() },
             });
         }
-        // directed script: two outer containers over inner [p] and [q] (either creation order), p ~ q merges the inner
-        // and the outer containers, then q ~ r rewrites the shared inner container IN PLACE; rules run in between
-        if s.bool() {
-            let mut ls = vec![0usize, 1, 2, 3];
-            for i in (1..4).rev() {
-                ls.swap(i, s.below(i + 1));
-            }
-            let (p, q, r) = (ls[0], ls[1], ls[2]);
-            let outer = |k: usize| Term::App(2, vec![Term::Prim("vec-of".into(), vec![cont(vec![leaf(k)])])]);
-            let (first, second) = if s.bool() { (p, q) } else { (q, p) };
-            cmds.push(Cmd::Act(Action::Expr(outer(first))));
-            cmds.push(Cmd::Act(Action::Expr(outer(second))));
+        // directed script: p ~ q (leader q) rewrites X = [[p]] so that it equals the unchanged, younger Y = [[q]] (the
+        // re-inserted, older id survives the merge); then q ~ r (leader r) rewrites the shared inner container [q] IN
+        // PLACE; a rule that already ran reads the new contents through two levels of vec-get
+        if directed {
+            let (p, q, r) = (dp, dq, dr);
             if kind == ContKind::Vec {
-                // a reader of exactly the value that appears last
                 let (z4, vv) = (Term::Var("z4".into()), Term::Var("vw".into()));
                 let inner = Term::Prim("vec-get".into(), vec![Term::Prim("vec-get".into(), vec![vv.clone(), Term::I(0)]), Term::I(0)]);
                 cmds.push(Cmd::Rule {
@@ -207,9 +208,7 @@ impl Stage for ManyContainers {
                 cmds.push(Cmd::RunN { rs: Some(1), n: 1, until: vec![] });
             }
             cmds.push(Cmd::Act(Action::Union(leaf(p), leaf(q))));
-            if s.bool() {
-                cmds.push(Cmd::RunN { rs: Some(1), n: 1, until: vec![] });
-            }
+            cmds.push(Cmd::RunN { rs: Some(1), n: 1, until: vec![] });
             cmds.push(Cmd::Act(Action::Union(leaf(if s.bool() { p } else { q }), leaf(r))));
             cmds.push(Cmd::RunN { rs: Some(1), n: 1, until: vec![] });
         }
